@@ -154,7 +154,11 @@ def render_stmt(shape, marker, macro, rid, structured, words, indent="    ", ref
                 kvs = ("ref = %s, %s" % (ridt, kvs)) if kvs else ("ref = %s" % ridt)
     else:
         if rid is not None:
-            msg = "[ref: %s] %s" % (ridt, msg)
+            if lead_ws.lstrip().startswith("/*") and ref_last:
+                # where the tool itself would have put it: behind the leading comment
+                msg = "%s[ref: %s] %s" % (lead_ws, ridt, msg[len(lead_ws):])
+            else:
+                msg = "[ref: %s] %s" % (ridt, msg)
     kvpart = (kvs + "; ") if kvs else ""
     # something between the bang and the opening bracket (rustc and the grammar both accept it)
     bang = {"bang_space": "! ", "bang_nl": "!\n" + indent + "    ", "bang_comment": "! /* lvl */ "}.get(shape, "!")
@@ -167,7 +171,7 @@ def render_stmt(shape, marker, macro, rid, structured, words, indent="    ", ref
 
 # (a planted reference starts the literal; one the tool inserted may follow white space that opens the message - the
 # grammar skips white space after the opening quote)
-_ID_UNSTRUCT = re.compile(r'"[ \t]*\[ref: (\d{1,10})\] ')
+_ID_UNSTRUCT = re.compile(r'"(?:[ \t]|/\*.*?\*/)*\[ref: (\d{1,10})\] ')
 _ID_STRUCT = re.compile(r'[(\s,]ref = (\d{1,10})[;,]')
 
 
@@ -252,7 +256,8 @@ class Gen:
         rid_text = None
         if rid is not None and rid < 100000 and rng.random() < 0.06:
             rid_text = "%06d" % rid   # leading zeros: still the same number
-        lead_ws = rng.choice(["  ", " - ", "\t", "\\n  "]) if rng.random() < 0.08 else ""   # message starting with white space
+        # message starting with white space or with a block comment (the grammar skips both after the opening quote)
+        lead_ws = rng.choice(["  ", " - ", "\t", "\\n  ", "/* q:users */ ", "/**/", " /* a */ /* b */ "]) if rng.random() < 0.1 else ""
         text = render_stmt(shape, mk, macro, rid, structured, words, ref_last=rng.random() < 0.3, module=module, rid_text=rid_text,
                            lead_ws=lead_ws)
         return ["stmt", mk, text]
@@ -390,9 +395,11 @@ def gen_ids(rng, n, p_have=0.4, lo=1, hi=60, special=None):
 
 
 def gen_world_model(rng, structured=None, use_cache="rand", nfiles=None, sizes=None, p_have=0.4, id_hi=60,
-                    lock="rand", shapes=None, max_stmts=4, min_missing=1, special_ids=None, crlf_p=0.0, unicode_p=0.0,
-                    decoy_p=0.25, custom_macros_p=0.15, layout_p=0.1, heads_p=0.12, many=None, extra_keys_p=0.3, modes_p=0.15, mtimes_p=0.3, many_files=None, yaml_style_p=0.3, high_ids_p=0.08):
+                    lock="rand", shapes=None, max_stmts=4, min_missing=1, special_ids=None, crlf_p=0.0, unicode_p=None,
+                    decoy_p=0.25, custom_macros_p=0.15, layout_p=0.1, heads_p=0.12, many=None, extra_keys_p=0.3, modes_p=0.15, mtimes_p=0.3, many_files=None, many_exact=False, yaml_style_p=0.3, high_ids_p=0.08, links_p=0.12):
     """A project with generated in-scope source files under proj/src (nested sometimes)."""
+    if unicode_p is None:
+        unicode_p = rng.choice([0.0, 0.0, 0.0, 0.3, 0.9])
     macros = None
     if rng.random() < custom_macros_p:
         macros = rng.choice([[("log", "info"), ("log", "warn")], [("mylog", "note"), ("mylog", "alert"), ("log", "error")],
@@ -446,10 +453,16 @@ def gen_world_model(rng, structured=None, use_cache="rand", nfiles=None, sizes=N
     if many_files:
         # a great many small files (counts around powers of two)
         mod0, mac0 = (macros or DEFAULT_MACROS)[0]
-        for j in range(many_files):
+        nmany = many_files
+        if many_exact:
+            # exactly many_files files need an update in total (the others generated above included): what a narrow
+            # per-run counter of updated / failed files would wrap on
+            need = sum(1 for segs in files.values() if any(s[0] == "stmt" and stmt_id(s[2]) is None for s in segs))
+            nmany = max(1, many_files - need)
+        for j in range(nmany):
             g.n += 1
             mk = "mk%05dq" % g.n
-            has = rng.random() < 0.5
+            has = (not many_exact) and rng.random() < 0.5
             txt = render_stmt("bare", mk, mac0, (1000 + j) if has else None, structured, "small", module=mod0)
             files["proj/src/many/d%02d/f%04d.rs" % (j % 17, j)] = [["pad", "fn s() {\n"], ["stmt", mk, txt], ["pad", "}\n"]]
             missing += 0 if has else 1
@@ -486,6 +499,16 @@ def gen_world_model(rng, structured=None, use_cache="rand", nfiles=None, sizes=N
             segs.insert(len(segs) - 1, g.stmt(structured, None, shapes))
             segs.insert(len(segs) - 1, ["pad", "}\n"])
     wm = {"cfg": cfg, "files": files, "extra": {}, "lock": None, "nmark": g.n}
+    if links_p and rng.random() < links_p and files:
+        # symbolic links inside the source tree, to a file and to a directory of the tree (never followed, never edited)
+        fl = sorted(files)
+        tgt = fl[rng.randrange(len(fl))]
+        wm["extra"]["proj/src/alias_%d.rs" % rng.randrange(100)] = {"t": "l", "target": tgt[len("proj/src/"):]}
+        sub_dirs = sorted({p.rsplit("/", 1)[0] for p in fl if p.count("/") >= 3})
+        if sub_dirs:
+            d = sub_dirs[rng.randrange(len(sub_dirs))]
+            wm["extra"]["proj/src/compat_%d" % rng.randrange(100)] = {"t": "l", "target": d[len("proj/src/"):]}
+        wm["extra"]["proj/src/dangling.rs"] = {"t": "l", "target": "does/not/exist.rs"}
     if rng.random() < mtimes_p:
         # file times all over the place: years old, in the future, older/newer than the lock - nothing may depend on them
         base = 1790000000
